@@ -239,9 +239,54 @@ pub fn big_values(ctx: &mut Ctx, acc: &mut Acc, check: &str) {
     }
 }
 
+/// chrono can hold a leap second (nanosecond >= 10^9) at a second other than :59 — it arises whenever a leap-second
+/// instant is viewed through an offset that is not a whole number of minutes — but can only *build* one at :59.
+/// The general value generator goes through from_hms_nano and never produces them; these are built by arithmetic.
+fn leap_seconds_off_the_minute(acc: &mut Acc) {
+    use chrono::{DateTime, FixedOffset, NaiveDate, NaiveDateTime, NaiveTime, TimeZone, Utc};
+    fn one<T: desert::BinarySerializer + desert::BinaryDeserializer + PartialEq + std::fmt::Debug>(acc: &mut Acc, class: &str, ty: &str, v: T) {
+        acc.case(Some(refmodel::rng::fnv64_str(&format!("{class}/{ty}/{v:?}"))));
+        let (r, _) = sbase::monitored(None, || {
+            let bytes = desert::serialize_to_byte_vec(&v).map_err(|e| sbase::classify(&e))?;
+            let back: T = desert::deserialize(&bytes).map_err(|e| sbase::classify(&e))?;
+            Ok((back == v, bytes))
+        });
+        match r {
+            Call::Ok((true, _)) => acc.count(&format!("{class}:roundtrip_ok")),
+            Call::Ok((false, bytes)) => acc.violation(
+                format!("C01|{class}|{ty}|other_value"),
+                J::obj().with("check", J::s("C01")).with("mode", J::s("content")).with("value", J::s(format!("{v:?}"))).with("hex", J::s(hex(&bytes))),
+            ),
+            other => acc.violation(
+                format!("C01|{class}|{ty}|{}", other.class()),
+                J::obj().with("check", J::s("C01")).with("mode", J::s("content")).with("value", J::s(format!("{v:?}"))).with("got", J::s(other.class())),
+            ),
+        }
+    }
+    let leap_utc: DateTime<Utc> = Utc.from_utc_datetime(&NaiveDate::from_ymd_opt(2016, 12, 31).unwrap().and_hms_nano_opt(23, 59, 59, 1_500_000_000).unwrap());
+    // control: whole-minute offsets keep the leap second at :59
+    for secs in [0, 3600, -5 * 3600, 19 * 60] {
+        let off = FixedOffset::east_opt(secs).unwrap();
+        one(acc, "leap_second_at_59", "DateTime<FixedOffset>", leap_utc.with_timezone(&off));
+        let t: NaiveTime = NaiveTime::from_hms_nano_opt(23, 59, 59, 1_999_999_999).unwrap();
+        one(acc, "leap_second_at_59", "NaiveTime", t);
+    }
+    for secs in [30, -1, 19 * 60 + 32, 86_399, -86_399] {
+        let off = FixedOffset::east_opt(secs).unwrap();
+        let dt = leap_utc.with_timezone(&off);
+        one(acc, "leap_second_off_the_minute", "DateTime<FixedOffset>", dt);
+        let ndt: NaiveDateTime = dt.naive_local();
+        one(acc, "leap_second_off_the_minute", "NaiveDateTime", ndt);
+        one(acc, "leap_second_off_the_minute", "NaiveTime", ndt.time());
+    }
+}
+
 pub fn c01(ctx: &mut Ctx, acc: &mut Acc) -> i32 {
     if ctx.extra.get("only").is_none() {
         big_values(ctx, acc, "C01");
+        if ctx.shard == 0 {
+            leap_seconds_off_the_minute(acc);
+        }
     }
     let n = ctx.n(2000, 20_000);
     // the local-time lane (TZ set to a zone with daylight saving by the driver): only types containing DateTime<Local>,
@@ -291,8 +336,60 @@ fn is_derived(ctx: &Ctx, id: &str) -> bool {
     !ctx.is_catalogue(id)
 }
 
+/// Histories in which a field name comes back.  For named fields that is a choice; for tuple variants it is forced:
+/// fields are called field0, field1 … by position, so dropping the last element and appending a new one later reuses
+/// its name.  The same definition must read what it wrote.
+fn names_that_come_back(acc: &mut Acc) {
+    use desert::BinaryCodec;
+    #[derive(BinaryCodec, Debug, PartialEq, Clone)]
+    enum Shape {
+        #[evolution(FieldRemoved("field2"), FieldAdded("field2", 0u32))]
+        Circle(u8, u8, u32),
+        Dot,
+    }
+    #[derive(BinaryCodec, Debug, PartialEq, Clone)]
+    #[evolution(FieldRemoved("note"), FieldAdded("note", None))]
+    struct Ticket {
+        id: u8,
+        note: Option<u32>,
+    }
+    // control: the same shapes with a name that was never used before
+    #[derive(BinaryCodec, Debug, PartialEq, Clone)]
+    #[evolution(FieldRemoved("memo"), FieldAdded("note", None))]
+    struct TicketFreshName {
+        id: u8,
+        note: Option<u32>,
+    }
+    fn one<T: desert::BinarySerializer + desert::BinaryDeserializer + PartialEq + std::fmt::Debug>(acc: &mut Acc, what: &str, v: T) {
+        acc.case(Some(refmodel::rng::fnv64_str(&format!("{what}/{v:?}"))));
+        let (r, _) = sbase::monitored(None, || {
+            let bytes = desert::serialize_to_byte_vec(&v).map_err(|e| sbase::classify(&e))?;
+            let back: T = desert::deserialize(&bytes).map_err(|e| sbase::classify(&e))?;
+            Ok((back == v, format!("{back:?}"), bytes))
+        });
+        match r {
+            Call::Ok((true, _, _)) => acc.count(&format!("names:{what}:roundtrip_ok")),
+            Call::Ok((false, got, bytes)) => acc.violation(
+                format!("C02|name_comes_back|{what}|silently_different_value"),
+                J::obj().with("check", J::s("C02")).with("mode", J::s("content")).with("value", J::s(format!("{v:?}"))).with("got", J::s(got)).with("hex", J::s(hex(&bytes))),
+            ),
+            other => acc.violation(
+                format!("C02|name_comes_back|{what}|{}", other.class()),
+                J::obj().with("check", J::s("C02")).with("mode", J::s("content")).with("value", J::s(format!("{v:?}"))).with("got", J::s(other.class())),
+            ),
+        }
+    }
+    one(acc, "control_fresh_name", TicketFreshName { id: 1, note: Some(99) });
+    one(acc, "control_other_constructor", Shape::Dot);
+    one(acc, "tuple_variant_last_element_replaced", Shape::Circle(1, 2, 99));
+    one(acc, "optional_field_removed_and_added_again", Ticket { id: 1, note: Some(99) });
+}
+
 pub fn c02(ctx: &mut Ctx, acc: &mut Acc) -> i32 {
     deep_nesting(ctx, acc, "C02");
+    if ctx.shard == 0 && !ctx.only_fresh() {
+        names_that_come_back(acc);
+    }
     let n = ctx.n(300, 1500);
     let subjects: Vec<String> = ctx.my_subjects(|_| true).iter().map(|s| s.id().to_string()).filter(|id| is_derived(ctx, id)).collect();
     for id in subjects {
